@@ -62,10 +62,11 @@ func init() {
 	register(&Stream{
 		Name: "optshadow",
 		Run: func(c *Ctx) {
-			c.Rule("binding forms (30, incl. const-in-scope and fold-then-shadow sequences) x foldable builtins (18) x call shapes (constant and non-constant operands) x optimizer budgets {default,1,2,5}: optimized vs unoptimized outcome on the implementation; every case is non-trivial; distinct = (form, builtin, call shape)")
+			c.Rule("constant conditions (37 values incl. NaN, -0.0, empty containers, folded builtin calls) x 10 control forms (if/else-if with init statement, ?:, &&, ||, for) x budgets; binding forms (30, incl. const-in-scope and fold-then-shadow sequences) x foldable builtins (18) x call shapes (constant and non-constant operands) x optimizer budgets {default,1,2,5}: optimized vs unoptimized outcome on the implementation; every case is non-trivial; distinct = (form, builtin, call shape)")
 			f := &ugo.Function{Name: "f", Value: func(args ...ugo.Object) (ugo.Object, error) {
 				return ugo.String(fmt.Sprintf("F%d", len(args))), nil
 			}}
+			optConst(c)
 			calls := []string{`NAME("7")`, `NAME(1)`, `NAME([1,2])`, `NAME("a", 1)`, `NAME(1 + 2)`, `[NAME(3), 1 + 1]`, `NAME(NAME(1))`}
 			n := 0
 			for _, b := range foldableBuiltins {
